@@ -241,7 +241,7 @@ fn panics_to_violations(o: &mut Outcome, stage: &str, detail: &str) -> usize {
 }
 
 fn short(s: &str) -> String {
-    let t: String = s.chars().take(400).collect();
+    let t: String = s.chars().take(600).collect();
     t.replace('\n', "\\n")
 }
 
@@ -254,7 +254,7 @@ fn run_texts(c: &TextsCase, o: &mut Outcome) {
         Err(out) => {
             panics_to_violations(o, "texts.model-setup", &short(&rmodel.text));
             if let Verdict::SqlErr(m) = &out.verdict {
-                o.violation(classify_sql("model", m, &Default::default()), format!("{} | model: {}", m, short(&rmodel.text)));
+                o.violation(classify_sql("model", m, &Default::default()), format!("{} | model: {}", short(m), short(&rmodel.text)));
             }
             o.label("texts:generated-model-refused");
             match MemWorld::new(FALLBACK_MODEL, true) {
@@ -302,7 +302,7 @@ fn run_texts(c: &TextsCase, o: &mut Outcome) {
                         Ok(_) => {}
                         Err(out) => {
                             if let Verdict::SqlErr(m) = &out.verdict {
-                                o.violation(classify_sql("model", m, &facts_from_text(&text, "")), format!("{} | model: {}", m, short(&text)));
+                                o.violation(classify_sql("model", m, &facts_from_text(&text, "")), format!("{} | model: {}", short(m), short(&text)));
                             }
                         }
                     }
@@ -340,7 +340,7 @@ fn run_texts(c: &TextsCase, o: &mut Outcome) {
                 match &out.verdict {
                     Verdict::SqlErr(m) => {
                         let facts = facts_from_text(&world.model_text, &text);
-                        o.violation(classify_sql(stage, m, &facts), format!("{} | {} | model: {}", m, short(&text), short(&world.model_text)));
+                        o.violation(classify_sql(stage.trim_start_matches("mem."), m, &facts), format!("{} | {} | model: {}", short(m), short(&text), short(&world.model_text)));
                     }
                     Verdict::Ok => o.label(format!("{}:executed", stage)),
                     Verdict::DataErr(_) => o.label("fts5-expression-error"),
@@ -383,7 +383,7 @@ fn run_requests(c: &ReqCase, ctx: &RunCtx, o: &mut Outcome) {
         Err(out) => {
             panics_to_violations(o, "requests.model-setup", &short(&rmodel.text));
             match &out.verdict {
-                Verdict::SqlErr(m) => o.violation(classify_sql("model", m, &Default::default()), format!("{} | model: {}", m, short(&rmodel.text))),
+                Verdict::SqlErr(m) => o.violation(classify_sql("model", m, &Default::default()), format!("{} | model: {}", short(m), short(&rmodel.text))),
                 _ => {
                     o.label("requests:generated-model-refused");
                     o.discard = Some(format!("model-refused:{}", out.error.unwrap_or_default().chars().take(60).collect::<String>()));
@@ -453,7 +453,7 @@ fn run_requests(c: &ReqCase, ctx: &RunCtx, o: &mut Outcome) {
                 let mut facts = r.facts.clone();
                 facts.non_finite_float |= rmodel.has_inf_default;
                 facts.quote_in_string_default |= rmodel.has_quote_default;
-                o.violation(classify_sql(stage, m, &facts), format!("{} | {}", m, detail));
+                o.violation(classify_sql(stage.trim_start_matches("mem."), m, &facts), format!("{} | {}", short(m), detail));
             }
             Verdict::DataErr(_) => {
                 parsed_any = true;
@@ -610,7 +610,7 @@ fn bomb_text(b: &BombCase) -> (String, &'static str) {
         // references that must exist: the generated SQL repeats the sub query (selection + EXISTS)
         (1, 0) => (format!("query {{ Person {{ {} id {} }} }}", "friends {".repeat(d), "}".repeat(d)), "query:sub-entities"),
         (1, 1) => (format!("query {{ Person ({}) {{ id }} }}", "name = \"a\",".repeat(d)), "query:filters"),
-        (1, 2) => (format!("query {{ {} }}", (0..d).map(|i| format!("a{} : Person {{ id }} ", i)).collect::<String>()), "query:entities"),
+        (1, 2) => (format!("query {{ {} }}", (0..d.min(3000)).map(|i| format!("a{} : Person {{ id }} ", i)).collect::<String>()), "query:entities"),
         // nullable references: the generated SQL grows linearly with the depth
         (1, _) => (format!("query {{ Person {{ {} id {} }} }}", "pet { owner {".repeat(d / 2 + 1), "}}".repeat(d / 2 + 1)), "query:nullable-sub-entities"),
         (2, 0) => (
@@ -619,7 +619,7 @@ fn bomb_text(b: &BombCase) -> (String, &'static str) {
         ),
         (2, 1) => (format!("mutate {{ Person {{ name: \"x\" {} {} }} }}", "friends: [{ name:\"f\" ".repeat(d), "}]".repeat(d)), "mutate:arrays"),
         (2, 2) => (format!("mutate {{ Person {{ name: \"{}\" }} }}", "\\\\".repeat(d)), "mutate:long-string"),
-        (2, _) => (format!("mutate {{ {} }}", (0..d).map(|i| format!("a{} : Pet {{ name:\"p\" }} ", i)).collect::<String>()), "mutate:entities"),
+        (2, _) => (format!("mutate {{ {} }}", (0..d.min(3000)).map(|i| format!("a{} : Pet {{ name:\"p\" }} ", i)).collect::<String>()), "mutate:entities"),
         (3, _) => (format!("delete {{ Person {{ $id friends[{}$x] }} }}", "$a,".repeat(d)), "delete:ids"),
         (_, _) => (format!("{{\"a\":{}1{}}}", "[".repeat(d), "]".repeat(d)), "params:arrays"),
     }
@@ -729,11 +729,11 @@ fn run_bomb(b: &BombCase, o: &mut Outcome) {
     }
     if out.status.success() {
         if let Some(rest) = stdout.strip_prefix("PANIC ") {
-            o.violation(format!("panic:{}@bomb.{}", rest.trim(), shape), format!("depth {} ({} bytes)", b.depth, text.len()));
+            o.violation(format!("panic:{}@local-text", rest.trim()), format!("{} depth {} ({} bytes)", shape, b.depth, text.len()));
         } else if let Some(i) = stdout.find("SqlErr(\"") {
             let msg = stdout[i + 8..].trim_end().trim_end_matches(')').trim_end_matches('"').to_string();
             o.violation(
-                classify_sql(&format!("bomb.{}", shape), &msg, &Default::default()),
+                classify_sql(shape.split(':').next().unwrap_or("query"), &msg, &Default::default()),
                 format!("{} | a {} byte text (depth {}): {}", msg, text.len(), b.depth, short(&text)),
             );
             o.nontrivial = true;
